@@ -17,8 +17,8 @@ PROPS = {
 }
 
 ENGINES = [
-    dict(name='enc', path='go/cmd/enc + go/extract/reg_enc.go + lean/XV/Model/{Merkle,EncTypes}.lean', serves_properties=['C08'],
-         kind_free_text='encoder schemas extracted from MakeBlockID (go/ast) with a Go-side interpreter checked against the real hash; Lean model of the merkle tree, the id pre-image and the VerifyBlock decision logic; mutation harness on the real Ledger.VerifyBlock with real keys'),
+    dict(name='enc', path='go/cmd/enc + go/extract/reg_enc.go + lean/XV/Model/{Merkle,EncTypes,Schema,SigLogic}.lean', serves_properties=['C08', 'C07'],
+         kind_free_text='encoder schemas extracted from MakeBlockID, txDigestHashV2, encodeTxData and the protobuf field lists (go/ast) with a Go-side interpreter checked against the real hash; Lean model of the merkle tree, the id pre-image and the VerifyBlock decision logic; mutation harness on the real Ledger.VerifyBlock with real keys; codec model of the v3 tx digest/id and decision model of the signature checks; schema-walking mutation harness on the real State.VerifyTx'),
 ]
 
 META = {
